@@ -2219,6 +2219,55 @@ func ruleOldTypesOnTheOldWire(c *core.Ctx) {
 			return c.Decl(f)
 		}}
 		rows := x.Extract(fn, d)
+		// helpers of the package that do the emitting for one change (`writeConvertingRw(w, tc, ...)`) are read in the
+		// context of the call: their rows get the guards of the call site, their parameters the argument texts (a
+		// dsl-typed parameter is rendered by its type name in the helper's rows)
+		keep := map[string]bool{"writeTypeConversion": true, "writeStepRw": true}
+		var expandCalls func(in []gee.Row, depth int) []gee.Row
+		expandCalls = func(in []gee.Row, depth int) []gee.Row {
+			var out []gee.Row
+			for _, r := range in {
+				var cd *ast.FuncDecl
+				if r.Kind == "call" && !keep[r.Tmpl] && depth < 3 {
+					if _, hd, _ := c.Func("internal/cpp/binary", r.Tmpl); hd != nil && hd.Recv == nil && hd != d {
+						cd = hd
+					}
+				}
+				if cd == nil {
+					out = append(out, r)
+					continue
+				}
+				subst := map[string]string{}
+				pi := 0
+				for _, fl := range cd.Type.Params.List {
+					for _, nm := range fl.Names {
+						if pi < len(r.Args) && nm.Name != "_" {
+							if tn := dslNamedType(p.TypesInfo.TypeOf(fl.Type)); tn != "" {
+								subst[tn] = r.Args[pi]
+							} else if r.Args[pi] != nm.Name {
+								subst[nm.Name] = r.Args[pi]
+							}
+						}
+						pi++
+					}
+				}
+				sub := func(t string) string {
+					for k, v := range subst {
+						t = replaceIdent(t, k, v)
+					}
+					return t
+				}
+				hx := &gee.Extractor{Info: p.TypesInfo, Fset: c.Fset, Decl: x.Decl}
+				for _, hr := range expandCalls(hx.Extract(r.Tmpl, cd), depth+1) {
+					nr := hr
+					nr.Guards = append(append([]string(nil), r.Guards...), mapStrings(hr.Guards, sub)...)
+					nr.Args = mapStrings(hr.Args, sub)
+					out = append(out, nr)
+				}
+			}
+			return out
+		}
+		rows = expandCalls(rows, 0)
 		// the changes this function tests for presence or classifies
 		changes := map[string]bool{}
 		for _, r := range rows {
@@ -2228,7 +2277,7 @@ func ruleOldTypesOnTheOldWire(c *core.Ctx) {
 					g = g[2 : len(g)-1]
 				}
 				for _, part := range splitTop(g, " && ") {
-					if m := neqNil.FindStringSubmatch(strings.TrimSpace(part)); m != nil && (strings.Contains(m[1], "Change") || strings.HasSuffix(m[1], "tc")) {
+					if m := neqNil.FindStringSubmatch(strings.TrimSpace(part)); m != nil && (strings.Contains(m[1], "Change") || strings.HasSuffix(m[1], "tc")) && !strings.HasSuffix(m[1], "Definition()") {
 						changes[m[1]] = true
 					}
 					if strings.HasPrefix(strings.TrimSpace(part), "requiresExplicitConversion(") {
@@ -2275,7 +2324,19 @@ func ruleOldTypesOnTheOldWire(c *core.Ctx) {
 			}
 			c.Check(verdict == "", rule, key, r.Pos, "routine of the previous version's type", verdict)
 		}
-		// conversions
+		// conversions: the direction flag is the one the I/O routines of this function are selected with
+		dirFlags := map[string]bool{}
+		for _, r := range rows {
+			if r.Kind == "emit" && strings.Contains(r.Tmpl, "(stream") && len(r.Args) >= 1 {
+				for _, fnn := range []string{"typeRwFunction(", "typeDefinitionRwFunction("} {
+					if a := r.Args[0]; strings.HasPrefix(a, fnn) && strings.HasSuffix(a, ")") {
+						if i := strings.LastIndex(a, ","); i > 0 {
+							dirFlags[strings.TrimSpace(a[i+1:len(a)-1])] = true
+						}
+					}
+				}
+			}
+		}
 		nconv := 0
 		for _, r := range rows {
 			if r.Kind != "call" || r.Tmpl != "writeTypeConversion" || len(r.Args) < 5 {
@@ -2284,7 +2345,7 @@ func ruleOldTypesOnTheOldWire(c *core.Ctx) {
 			nconv++
 			key := fn + "/conversion#" + itoa(nconv)
 			X := stripDsl(r.Args[1])
-			okFlag := r.Args[4] == "write"
+			okFlag := r.Args[4] == "write" || (dirFlags[r.Args[4]] && r.Args[4] != "true" && r.Args[4] != "false")
 			guarded := false
 			for _, g := range r.Guards {
 				if strings.Contains(stripDsl(g), "requiresExplicitConversion(") && !strings.HasPrefix(stripDsl(g), "!") {
